@@ -56,6 +56,9 @@ enum Built {
     HStr(Arc<HeaderSlice<A, str>>, String),
     HBytes(Arc<HeaderSlice<A, [u16]>>, Vec<u16>),
     ThinBytes(ThinArc<A, u16>, Vec<u16>),
+    /// zero-sized header with a destructor
+    FatZ(Arc<HeaderSlice<crate::payload::Zh, [E]>>),
+    ThinZ(ThinArc<crate::payload::Zh, E>),
 }
 
 pub const N_OBSERVERS: usize = 24;
@@ -350,6 +353,14 @@ pub fn run_case(c: &Value, variant: usize) -> Vec<String> {
             inner: v.into_iter(), calls: 0, k, lens, len_calls: Cell::new(0), hints, hint_calls: Cell::new(0),
         };
         match ctor {
+            "fhi" if variant == 1 => {
+                hid = crate::payload::ZID;
+                Built::FatZ(Arc::from_header_and_iter(crate::payload::Zh, mk_iter(v, vec![l1], vec![(l1, Some(l1))])))
+            }
+            "thin" if variant == 1 => {
+                hid = crate::payload::ZID;
+                Built::ThinZ(ThinArc::from_header_and_iter(crate::payload::Zh, mk_iter(v, vec![l1, l2], vec![(l1, Some(l1))])))
+            }
             "fhi" => {
                 let h = A::mk(5);
                 hid = h.see().id;
@@ -418,6 +429,7 @@ pub fn run_case(c: &Value, variant: usize) -> Vec<String> {
     alloc::track(false);
     // ---- what came out
     let mut foreign_panic = false;
+    let mut early: Vec<Ev> = vec![];
     let observed_ok = built.is_ok();
     let tag = format!("{} a={} k={} l1={} l2={} hint=({},{}) cap={} variant={}", ctor, a, k, l1, l2, lo, if up == 99 { "None".to_string() } else { up.to_string() }, cap, variant);
     match built {
@@ -430,6 +442,13 @@ pub fn run_case(c: &Value, variant: usize) -> Vec<String> {
                         errs.push(format!("[thin] {}: ThinArc records length {} for a slice of {}", tag, x.header.length, x.slice.len()));
                     }
                     (x.slice.len(), x.slice.iter().take(a + 4).map(|e| e.see().id).collect(), ThinArc::strong_count(x), x.header.header.see().id == hid && x.header.header.see().ok)
+                }
+                Built::FatZ(x) => (x.slice.len(), x.slice.iter().map(|e| e.see().id).collect(), Arc::count(x), true),
+                Built::ThinZ(x) => {
+                    if x.header.length != x.slice.len() {
+                        errs.push(format!("[thin] {}: ThinArc records length {} for a slice of {}", tag, x.header.length, x.slice.len()));
+                    }
+                    (x.slice.len(), x.slice.iter().take(a + 4).map(|e| e.see().id).collect(), ThinArc::strong_count(x), true)
                 }
                 Built::Slice(x) => (x.len(), x.iter().map(|e| e.see().id).collect(), Arc::count(x), true),
                 Built::Uq(x) => (x.len(), x.iter().map(|e| e.see().id).collect(), 1, true),
@@ -478,6 +497,16 @@ pub fn run_case(c: &Value, variant: usize) -> Vec<String> {
             } else if xres != "ok" {
                 errs.push(format!("[panicked] {}: the constructor returned a handle, the specification says it must refuse ({})", tag, xres));
             }
+            // nothing that was given to the constructor may have been destroyed while the handle is alive
+            early = ev::drain();
+            for e in &early {
+                if let Ev::Drop { id, .. } = e {
+                    if *id == hid || ids.contains(id) {
+                        errs.push(format!("[drops] {}: {} was destroyed by the constructor although the handle it returned is alive", tag,
+                                          if *id == hid { "the header" } else { "an element" }));
+                    }
+                }
+            }
             alloc::track(true);
             let r = catch_unwind(AssertUnwindSafe(move || drop(b)));
             alloc::track(false);
@@ -497,7 +526,8 @@ pub fn run_case(c: &Value, variant: usize) -> Vec<String> {
     }
     let _ = foreign_panic;
     // ---- accounting after everything that can be dropped has been dropped
-    let evs = ev::drain();
+    let mut evs = early;
+    evs.extend(ev::drain());
     let mut drops: std::collections::HashMap<u32, u32> = Default::default();
     for e in &evs {
         match e {
@@ -552,7 +582,7 @@ pub fn run(cases_path: &str, out_path: &str) {
         };
         let c: Value = serde_json::from_str(&body).unwrap();
         let variants = match c["ctor"].as_str().unwrap_or("") {
-            "collect" | "vec" => 2,
+            "collect" | "vec" | "fhi" | "thin" => 2,
             "slice" | "str" => 3,
             _ => 1,
         };
